@@ -6,10 +6,10 @@ func init() {
 	registerProp(&Property{
 		ID: "C01", Kind: "necessary structural clauses",
 		Tech:  "effect summaries + CFG/SSA lints (iterator invalidation, shift bounds, normaliser order, recursion guards, iteration caps, inverse pairs)",
-		Rules: []string{"LANG-0", "ITER-1", "SHIFT-1", "ORD-4", "REC-1", "CAP-1", "EFF-2", "ORD-2"},
+		Rules: []string{"LANG-0", "ITER-1", "SHIFT-1", "ORD-4", "REC-1", "PROG-1", "CAP-1", "EFF-2", "ORD-2"},
 		Explanation: "Panic-freedom and termination of network simplex, weighted median, the compaction algorithms, the funnel and the spline fitter quantify over run-time values; no sound bound is in reach, so the check decides necessary clauses that are visible in the shape of the code: " +
 			"ITER-1 no loop removes the element it is visiting from the adjacency/edge list it iterates (skipped edges left the graph cyclic -> 'still cyclic' panic); SHIFT-1 no unbounded shift (layer masks collapsed at 64 layers -> matrix index panic); " +
-			"ORD-4 layers stay >= 0 after normalisation (negative layers index the layer slice); REC-1 every recursive traversal has a mark-and-test guard or a reviewed termination argument; CAP-1 the two documented iteration caps exist and depend on their options; " +
+			"ORD-4 layers stay >= 0 after normalisation (negative layers index the layer slice); REC-1 every recursive traversal has a mark-and-test guard or a reviewed termination argument; PROG-1 the flag-guarded fix-point of the default positioner repeats only after strictly increasing a coordinate; CAP-1 the two documented iteration caps exist and depend on their options; " +
 			"EFF-2 + ORD-2 self-loops are out of all three lists while the pipeline runs and back afterwards, and every phase runs on a connected component in phase order. " +
 			"Not decided: explicit panic sites guarded by run-time preconditions, index/nil safety in general, termination of feasibleTree, transpose, placeBlock, the funnel loops and the predecessor walk in geom.Shortest, memory budgets.",
 		Assumptions: []string{"clauses are necessary, not sufficient, for the property", "REC-1's reviewed table (5 functions) is correct"},
@@ -34,9 +34,9 @@ func init() {
 	registerProp(&Property{
 		ID: "C04", Kind: "necessary structural clauses (VAlign/PackRight sufficient)",
 		Tech:  "symbolic affine execution (recurrences of VAlign/PackRight, separation dominance of the NS positioner, Y assignment, component shift), ownership table",
-		Rules: []string{"AFF-4", "AFF-7", "FLOW-1", "AFF-5", "EFF-3", "OWN-1", "ORD-4"},
+		Rules: []string{"AFF-4", "AFF-7", "FLOW-1", "AFF-5", "EFF-3", "OWN-1", "ORD-4", "PROG-1"},
 		Explanation: "AFF-4: VAlign and PackRight place neighbours exactly W + NodeSpacing apart, so no overlap and >= spacing for all widths >= 0; AFF-7: the NetworkSimplex positioner's separation constraint dominates W_left + spacing; FLOW-1 (with AFF-6): the next component starts at the rightmost edge + spacing; " +
-			"AFF-5/EFF-3: vertical disjointness of bands; OWN-1: X/Y only from phase 4; ORD-4: X = auxiliary layer >= 0. Not decided: SinkColoring's placeBlock fix-point (the default positioner), finiteness, the integer rounding of the auxiliary graph, that the last node of a layer is the rightmost.",
+			"AFF-5/EFF-3: vertical disjointness of bands; OWN-1: X/Y only from phase 4; ORD-4: X = auxiliary layer >= 0; PROG-1: SinkColoring's overlap removal repeats only under a strict overlap test and moves the node to at least the compared bound. Not decided: convergence and completeness of SinkColoring's placeBlock fix-point (the default positioner), finiteness, the integer rounding of the auxiliary graph, that the last node of a layer is the rightmost.",
 		Assumptions: []string{"sizes and spacings are finite and non-negative (property hypothesis)"},
 	})
 	registerProp(&Property{
